@@ -280,6 +280,23 @@ func (v *FnView) FactsAt(target ast.Node, stopAtFuncLit bool) []Fact {
 			// tagless switch: inside `case c:` c is true (single expr) and earlier
 			// single-expression cases are false.
 			sw, _ := v.parent(v.parent(p)).(*ast.SwitchStmt)
+			if sw != nil && sw.Tag != nil && isIn(child, p.Body) && len(p.List) == 1 && v.parent(p) == ast.Node(sw.Body) {
+				// tagged switch (no fallthrough into this arm): inside `case c:` tag == c
+				fall := false
+				for i, cc := range sw.Body.List {
+					if cc == ast.Stmt(p) && i > 0 {
+						prev := sw.Body.List[i-1].(*ast.CaseClause)
+						if len(prev.Body) > 0 {
+							if br, ok := prev.Body[len(prev.Body)-1].(*ast.BranchStmt); ok && br.Tok == token.FALLTHROUGH {
+								fall = true
+							}
+						}
+					}
+				}
+				if !fall {
+					facts = append(facts, Fact{Atom: &ast.BinaryExpr{X: sw.Tag, Op: token.EQL, Y: p.List[0], OpPos: p.Pos()}, Truth: true, At: sw})
+				}
+			}
 			if sw != nil && sw.Tag == nil && isIn(child, p.Body) {
 				if len(p.List) == 1 {
 					decompose(p.List[0], true, sw, &facts)
